@@ -506,12 +506,15 @@ def _sumdefs_in(t):
 class LoopContract:
     """invariant: list of (label, fn(ns) -> Bool) where ns maps variable names (and the loop
     index under its own name) to wrapped symbolic values; modifies: optional explicit lists;
-    decreases: for while loops."""
+    decreases: for while loops.  step (optional, default none): two-state clauses [(label, fn(ns_head, ns_end))] proved for every
+    iteration between the (havocked, invariant-satisfying) state at the loop head and the state at the end of the body or at a `break`
+    (obligations `<loop>.step.<label>`; nothing is assumed from them)."""
 
-    def __init__(self, invariant, decreases=None, hints=None):
+    def __init__(self, invariant, decreases=None, hints=None, step=None):
         self.invariant = invariant
         self.decreases = decreases
         self.hints = hints
+        self.step = step
 
 
 def invariant_loop(interp, node, st, man, lo, hi):
@@ -597,6 +600,15 @@ def invariant_loop(interp, node, st, man, lo, hi):
         assume_inv(st, None)
         dec0 = man.decreases(ns_of(st)) if man.decreases else None
         cond_state = st
+    head = st.snapshot() if getattr(man, "step", None) else None      # two-state clauses: the state at the loop head
+
+    def check_step(snap):
+        if head is None:
+            return
+        iv = i if is_for else None
+        h, e = ns_of(head, iv), ns_of(snap, iv)
+        for label, fn in man.step:
+            ctx.oblige(snap, f"{loopname}.step.{label}", fn(h, e))
 
     def body():
         if not is_for:
@@ -612,10 +624,12 @@ def invariant_loop(interp, node, st, man, lo, hi):
                 if not (isinstance(lv, list) and len(lv) == l0):
                     raise Unsupported(f"list {ln} changes its length in a loop with invariant")
             check_inv(snap, T.add(i, 1) if is_for else None, "preserve")
+            check_step(snap)
             if not is_for and man.decreases:
                 d1 = man.decreases(ns_of(snap))
                 ctx.oblige(snap, f"{loopname}.decreases", T.land(T.cmp("<", d1, dec0), T.cmp(">=", dec0, 0)))
         elif kind == "break":
+            check_step(snap)
             exits.append(snap)
         elif kind == "raise":
             ctx.escape(snap, payload, loopname)
